@@ -1,0 +1,24 @@
+//! Verification hooks for the file-out target (feature `verif-hooks`).
+//!
+//! Add-only: lets an external harness build a `File` target without going
+//! through the manager's config loader, so the real `File::run` can be fed
+//! through a real gate/link.
+use std::path::PathBuf;
+
+use super::{Config, File, Format};
+use crate::comms::Link;
+
+/// Builds a file-out target. `format` is one of the config spellings
+/// `csv`, `json`, `json-min`.
+pub fn file_target(format: &str, filename: PathBuf, sources: Link) -> Option<File> {
+    let format = match format {
+        "csv" => Format::Csv,
+        "json" => Format::Json,
+        "json-min" => Format::JsonMin,
+        _ => return None,
+    };
+    Some(File {
+        config: Config { format, filename: filename.into() },
+        sources,
+    })
+}
